@@ -153,7 +153,14 @@ func (s *nnrfService) RegisterNFInstance(ctx context.Context) (
 
 		// http.StatusOK
 		if res.Location == "" {
-			// NFUpdate
+			// NFUpdate: the NRF already knows this instance (an earlier answer was lost, or the CHF restarted);
+			// its OAuth2 declaration is in this answer as well
+			if nf.CustomInfo != nil {
+				if v, ok := nf.CustomInfo["oauth2"].(bool); ok {
+					logger.MainLog.Infoln("OAuth2 setting receive from NRF:", v)
+					chf_context.GetSelf().OAuth2Required = v
+				}
+			}
 			break
 		} else { // http.StatusCreated
 			// NFRegister
